@@ -12,6 +12,7 @@ import (
 	"context"
 	"errors"
 	"fmt"
+	"os"
 	"strings"
 	"time"
 
@@ -37,6 +38,7 @@ type Case struct {
 }
 
 // while a case is explored under several schedules its violations are handed to the explorer
+var pollBound int
 var exploring bool
 var pendSig, pendDet string
 
@@ -100,13 +102,17 @@ func runRead(c Case) {
 		return
 	}
 	if len(c.Choices) > 0 { // replay of one schedule
-		runReadCfg(c, vrt.Config{Choices: c.Choices})
+		x := runReadCfg(c, vrt.Config{Choices: c.Choices, TraceOps: os.Getenv("VERIF_TRACE") != ""})
+		for _, l := range x.Trace {
+			fmt.Println("trace:", l)
+		}
 		return
 	}
 	bound := 1
 	if h.Thorough {
 		bound = 2
 	}
+	pollBound = bound
 	st := vrt.ExploreFn(vrt.ExploreCfg{Bound: bound, Deadline: h.Deadline(),
 		Check: func(x *vrt.Exec) (string, string) {
 			s, d := pendSig, pendDet
@@ -321,7 +327,13 @@ func runReadCfg(c Case, cfg vrt.Config) *vrt.Exec {
 	}
 	slack := time.Duration(0)
 	if c.Poll {
-		slack = time.Second // the polling consumer looks once per virtual second
+		// the polling consumer looks once per virtual second, and a poll may miss a queued error: the
+		// non-waiting receive selects among its ready cases, one of which says "nothing ready" - one
+		// more poll per deviation of the explored schedule
+		slack = time.Duration(1+len(c.Choices)) * time.Second
+		if exploring {
+			slack = time.Duration(1+pollBound) * time.Second
+		}
 	}
 	if errAt > time.Duration(readTimeout)*time.Second+slack {
 		report("C14|error-later-than-read-timeout|"+cls, fmt.Sprintf("%s: error %q only after %v of virtual time (read timeout %ds)", ctxt, gotErr, errAt, readTimeout), c)
